@@ -1076,6 +1076,37 @@ func checkC12(e *Env, r *Report) {
 	} else if r.Fatal != "" {
 		return
 	}
+	// pairs of rules that MERGE into one and both carry a comment: the combined comment is printed behind
+	// the merged rule (a comment that starts with a keyword such as include must stay a comment)
+	{
+		mk := func(acc string, cmt string) aa.Rule {
+			f := &aa.File{Path: "/etc/vgen-demo/", Access: []string{acc}}
+			f.Comment = cmt
+			return f
+		}
+		cmts := []string{" include <abstractions/nis> was considered", " second note", " #include <abstractions/x>", " abi <abi/4.0>, old", " @{var} = x"}
+		for i, c1 := range cmts {
+			for j, c2 := range cmts {
+				if i == j {
+					continue
+				}
+				var text string
+				func() {
+					defer func() { _ = recover() }()
+					rs := aa.Rules{mk("r", c1), mk("w", c2), &aa.Capability{Names: []string{"chown"}}}.Merge().Sort().Format()
+					aa.IndentationLevel = 1
+					text = rs.String()
+					aa.IndentationLevel = 0
+				}()
+				ref := "  file /etc/vgen-demo/ rw,\n  capability chown,"
+				got := compileStub(dir, fmt.Sprintf("m%d_%d", i, j), text)
+				want := compileStub(dir, fmt.Sprintf("n%d_%d", i, j), ref)
+				id := fmt.Sprintf("mergedcomment:%s|%s", strings.TrimSpace(c1), strings.TrimSpace(c2))
+				recs = append(recs, map[string]any{"ev": "meaning", "id": id, "text": text, "reftext": ref, "accepted": got.OK, "diag": got.Diag, "refaccepted": want.OK, "samepolicy": want.OK && got.OK && want.Bin == got.Bin})
+				classOf[id] = "mergedcomment|" + diagClass(got.Diag)
+			}
+		}
+	}
 	// merged and formatted blocks, rules from logs and from directives
 	nBlocks := 150
 	if e.Tier == "thorough" {
